@@ -62,7 +62,8 @@ Vals(k, vs) == { <<k, v>> : v \in vs }
 TypePool(d) ==
   Vals(K_type, { Str(T_integer), Str(T_number), Str(T_string), Str(T_array), Str(T_object), Str(T_boolean),
                  Str(T_null), Arr(<<Str(T_integer), Str(T_string)>>) }
-               \cup (IF d = 3 THEN { Str(T_any), Arr(<<Min2, Str(T_string)>>), Arr(<<TInt, Enum1>>), Arr(<<>>) } ELSE {}))
+               \cup (IF d = 3 THEN { Str(T_any), Arr(<<Min2, Str(T_string)>>), Arr(<<Str(T_string), Min2>>), Arr(<<Str(T_null), TInt, Str(T_string), Min2>>),
+                                Arr(<<TInt, Enum1>>), Arr(<<>>) } ELSE {}))
 
 ValuePool(d) ==
   Vals(K_enum, { Arr(<<N1>>), Arr(<<N1, Str(S_a)>>), Arr(<<Arr(<<N1>>)>>), Arr(<<Obj1(S_a, N1)>>), Arr(<<JNull, JTrue>>) }
@@ -113,7 +114,7 @@ Seqs123(L) == { <<a>> : a \in L } \cup { <<a, b>> : a, b \in L } \cup { <<a, b, 
 
 LogicPool(d) ==
   IF d = 3
-  THEN Vals(K_disallow, { Str(T_integer), Str(T_any), Arr(<<Str(T_string), Str(T_integer)>>), Arr(<<Min2, Str(T_string)>>), Arr(<<>>) })
+  THEN Vals(K_disallow, { Str(T_integer), Str(T_any), Arr(<<Str(T_string), Str(T_integer)>>), Arr(<<Min2, Str(T_string)>>), Arr(<<Str(T_string), Min2>>), Arr(<<>>) })
        \cup Vals(K_extends, Leaves(d) \cup { Arr(s) : s \in Seqs123(Leaves2(d)) } \cup {Arr(<<>>)})
   ELSE Vals(K_allOf, { Arr(s) : s \in Seqs123(Leaves2(d)) })
        \cup Vals(K_anyOf, { Arr(s) : s \in Seqs123(Leaves2(d)) })
